@@ -42,16 +42,19 @@ func (bq *InMemoryBuildQueue) VerifLock() interface{} {
 
 // VerifWorker describes a worker known to the scheduler.
 type VerifWorker struct {
-	Queue          VerifQueueKey
-	WorkerKey      string
-	WorkerID       map[string]string
-	ActionDigest   string // hash of the assigned task's action digest, "" if none
-	TaskID         uintptr
-	Blocked        bool // inside a blocking Synchronize, waiting for work
-	Terminating    bool
-	InSync         bool // cleanup key inactive: a Synchronize call is in progress
-	Timeout        time.Time
-	LastInvocation []string
+	Queue                   VerifQueueKey
+	WorkerKey               string
+	WorkerID                map[string]string
+	ActionDigest            string // hash of the assigned task's action digest, "" if none
+	TaskID                  uintptr
+	Blocked                 bool // inside a blocking Synchronize, waiting for work
+	Terminating             bool
+	InSync                  bool // cleanup key inactive: a Synchronize call is in progress
+	Timeout                 time.Time
+	LastInvocation          []string
+	ID                      uintptr
+	StickinessStartingTimes []time.Time
+	StickinessLimits        []time.Duration
 }
 
 // VerifQueueKey identifies a size class queue.
@@ -97,9 +100,21 @@ type VerifOperation struct {
 	WorkerKey          string
 }
 
+// VerifInvocation describes one node of a size class queue's invocation
+// tree.
+type VerifInvocation struct {
+	Queue                VerifQueueKey
+	Path                 []string
+	ID                   uintptr
+	LastOperationStarted time.Time
+	ExecutingWorkers     int
+	DirectlyQueued       int
+}
+
 // VerifSnapshot is a consistent view of the scheduler's state.
 type VerifSnapshot struct {
 	Now             time.Time
+	Invocations     []VerifInvocation
 	Workers         []VerifWorker
 	Queues          []VerifQueue
 	Operations      []VerifOperation
@@ -138,6 +153,21 @@ func (bq *InMemoryBuildQueue) VerifSnapshotUnlocked() *VerifSnapshot {
 			q.Timeout = bq.cleanupQueue.heap[scq.cleanupKey-1].timestamp
 		}
 		s.Queues = append(s.Queues, q)
+		var walk func(i *invocation)
+		walk = func(i *invocation) {
+			s.Invocations = append(s.Invocations, VerifInvocation{
+				Queue:                q.Key,
+				Path:                 verifKeys(i.invocationKeys),
+				ID:                   uintptr(unsafe.Pointer(i)),
+				LastOperationStarted: i.lastOperationStarted,
+				ExecutingWorkers:     len(i.executingWorkers),
+				DirectlyQueued:       len(i.queuedOperations),
+			})
+			for _, c := range i.children {
+				walk(c)
+			}
+		}
+		walk(&scq.rootInvocation)
 		for wk, w := range scq.workers {
 			e := VerifWorker{
 				Queue:       q.Key,
@@ -157,6 +187,9 @@ func (bq *InMemoryBuildQueue) VerifSnapshotUnlocked() *VerifSnapshot {
 			if w.lastInvocation != nil {
 				e.LastInvocation = verifKeys(w.lastInvocation.invocationKeys)
 			}
+			e.ID = uintptr(unsafe.Pointer(w))
+			e.StickinessStartingTimes = append([]time.Time(nil), w.stickinessStartingTimes...)
+			e.StickinessLimits = scq.platformQueue.workerInvocationStickinessLimits
 			s.Workers = append(s.Workers, e)
 		}
 	}
@@ -203,6 +236,12 @@ func (bq *InMemoryBuildQueue) VerifSnapshotUnlocked() *VerifSnapshot {
 		s.Operations = append(s.Operations, e)
 	}
 	sort.Slice(s.Operations, func(i, j int) bool { return s.Operations[i].Name < s.Operations[j].Name })
+	sort.Slice(s.Invocations, func(i, j int) bool {
+		if a, b := fmt.Sprint(s.Invocations[i].Queue), fmt.Sprint(s.Invocations[j].Queue); a != b {
+			return a < b
+		}
+		return fmt.Sprint(s.Invocations[i].Path) < fmt.Sprint(s.Invocations[j].Path)
+	})
 	if len(bq.cleanupQueue.heap) > 0 {
 		s.HasCleanup = true
 		s.EarliestCleanup = bq.cleanupQueue.heap[0].timestamp
